@@ -1,7 +1,7 @@
 #!/usr/bin/env python3
 """C18: the Airplanes / Stats tabs show the tracker's data; the map places aircraft truthfully;
 view controls change only the view."""
-import sys, os, json, time, argparse, math
+import re, sys, os, json, time, argparse, math
 
 sys.path.insert(0, os.path.dirname(os.path.abspath(__file__)))
 import frames as F
@@ -130,9 +130,27 @@ def stable_map(s, timeout=4.0):
         a = b
 
 
+def log_timeline(s):
+    """(unix time, frame hex) of every line radar processed, from its own debug log"""
+    import datetime
+    out = []
+    for m in re.finditer(r"^(\d{4}-\d\d-\d\dT[\d:.]+)Z\s+DEBUG radar: \S+ bytes: ([0-9a-fA-F]+)\s*$", s.log_text(), flags=re.M):
+        try:
+            t = datetime.datetime.fromisoformat(m.group(1)[:26]).replace(tzinfo=datetime.timezone.utc).timestamp()
+        except ValueError:
+            continue
+        out.append((t, m.group(2).lower()))
+    return out
+
+
 def run_expiry_case(case):
-    """Stats / table bookkeeping across expiry: aircraft time out (--filter-time 2) and come back"""
+    """Stats / table bookkeeping across expiry: aircraft time out (--filter-time 2) and come back.
+    The schedule below only steers what happens; the expected totals are computed from the times
+    at which radar itself logged each frame as processed, with a band of one second after the
+    threshold in which either outcome is accepted - the verdict does not depend on how fast this
+    harness or the machine is."""
     fails = []
+    T, SLACK = 2.0, 1.0
     rx = RXS[case["rx"] % len(RXS)]
     n1 = 2 + case["n1"] % 4
     keep = sorted({k % n1 for k in case["keep"]}) or [0]
@@ -140,21 +158,10 @@ def run_expiry_case(case):
     back = sorted({b % n1 for b in case["back"]} - set(keep))
     s = RadarSession("c18x", rows=ROWS, cols=COLS, lat=rx[0], lon=rx[1], opts=["--disable-heading"], filter_time=2)
     try:
-        counts = {}
-        total = 0
-        most = 0
-
         def hear(i, tag):
-            nonlocal total, most
             a = ADDRS[i % len(ADDRS)]
             f = F.ident(a, f"X{i}{tag}"[:8])
             s.send(F.line(f))
-            k = f"{a:06x}"
-            if k not in counts:
-                total += 1
-                counts[k] = 0
-            counts[k] += 1
-            most = max(most, len(counts))
             return f
 
         last = None
@@ -170,8 +177,6 @@ def run_expiry_case(case):
                 last = hear(i, f"K{r}")
             r += 1
             time.sleep(0.5)
-        for k in [f"{ADDRS[i % len(ADDRS)]:06x}" for i in range(n1) if i not in keep]:
-            counts.pop(k, None)
         if not s.wait_log_contains(last.hex(), 8.0):
             raise Inconclusive("frames not processed")
         for j in range(n2):
@@ -181,25 +186,66 @@ def run_expiry_case(case):
         if not s.wait_log_contains(last.hex(), 8.0):
             raise Inconclusive("frames not processed")
         time.sleep(0.2)
+
+        # ---- the model, on radar's own time axis
+        seen, cnt = {}, {}
+        total = 0
+        most_lo = most_hi = 0
+        for ts, hx in log_timeline(s):
+            a = hx[2:8]
+            for b in [b for b in seen if ts - seen[b] > T + SLACK]:
+                del seen[b], cnt[b]  # silent for longer than the band: expired
+            if a in seen:
+                if ts - seen[a] >= T - 0.05:
+                    raise Inconclusive("a gap inside the tolerance band of the expiry threshold")
+                cnt[a] += 1
+            else:
+                total += 1
+                cnt[a] = 1
+            seen[a] = ts
+            sure = sum(1 for b in seen if ts - seen[b] < T - 0.05)
+            maybe = sum(1 for b in seen if ts - seen[b] >= T - 0.05)
+            most_lo, most_hi = max(most_lo, sure), max(most_hi, sure + maybe)
+
         s.press("F4")
         if not s.wait_for(lambda: "total" in stats_values(s.fresh_screen()), 4.0):
             raise Inconclusive("Stats tab did not appear")
-        sv = stats_values(s.fresh_screen())
+        sv = {}
+        for attempt in range(4):
+            s.p.pump(0.05 if attempt == 0 else 0.4)
+            sv = stats_values(s.fresh_screen())
+            if sv.get("total") == str(total):
+                break
         if sv.get("total") != str(total):
-            fails.append(("C18/stats/total/expiry", f"Total Airplanes shows {sv.get('total')}; aircraft were newly added {total} times ({n1} first, some expired, {n2} new, {len(back)} heard again)"))
-        if sv.get("most") != str(most):
-            fails.append(("C18/stats/most/expiry", f"Most Airplanes shows {sv.get('most')}; the largest simultaneous count was {most}"))
+            fails.append(("C18/stats/total/expiry", f"Total Airplanes shows {sv.get('total')}; by radar's own log aircraft were newly added {total} times ({n1} first, some expired, {n2} new, {len(back)} heard again)"))
+        if not (sv.get("most", "").isdigit() and most_lo <= int(sv["most"]) <= most_hi):
+            fails.append(("C18/stats/most/expiry", f"Most Airplanes shows {sv.get('most')}; the largest simultaneous count was between {most_lo} and {most_hi}"))
         s.press("F3")
         if not s.wait_for(lambda: table_rows(s.fresh_screen()) is not None, 4.0):
             raise Inconclusive("Airplanes tab did not appear")
-        time.sleep(0.15)
-        titles, rows = table_rows(s.fresh_screen())
-        got = {r[0].strip(): r[9].strip() for r in rows}
-        want = {k: str(v) for k, v in counts.items()}
-        if got != want:
-            fails.append(("C18/table/rows/expiry", f"Airplanes tab shows {got} (address: messages), the tracker holds {want}"))
-        if any(t != len(counts) for t in titles):
-            fails.append(("C18/table/title/expiry", f"titles show Airplanes{titles}, the tracker holds {len(counts)}"))
+        probs = []
+        for attempt in range(4):
+            s.p.pump(0.15 if attempt == 0 else 0.4)
+            t_look = time.time()
+            tr = table_rows(s.fresh_screen())
+            if tr is None:
+                continue
+            titles, rows = tr
+            got = {r[0].strip(): r[9].strip() for r in rows}
+            must = {k: str(v) for k, v in cnt.items() if t_look - seen[k] < T - 0.4}
+            may = {k: str(v) for k, v in cnt.items() if t_look - seen[k] <= T + SLACK + 0.4}
+            probs = []
+            for k, v in must.items():
+                if got.get(k) != v:
+                    probs.append(("C18/table/rows/expiry", f"Airplanes tab shows {got} (address: messages); {k} was heard {v} times since it was (re)added and less than {T} s ago"))
+            for k, v in got.items():
+                if may.get(k) != v:
+                    probs.append(("C18/table/rows/expiry", f"Airplanes tab shows {k} with {v} messages; the tracker can only hold {may}"))
+            if any(t != len(got) for t in titles):
+                probs.append(("C18/table/title/expiry", f"titles show Airplanes{titles}, the table has {len(got)} rows"))
+            if not probs:
+                break
+        fails.extend(probs[:2])
         if not s.alive():
             fails.append(("C18/terminated", f"radar terminated: {s.stderr()[-300:]}"))
     finally:
@@ -265,28 +311,45 @@ def run_case(case):
             ok = s.wait_for(lambda: table_rows(s.fresh_screen()) is not None, 4.0)
             if not ok:
                 raise Inconclusive("Airplanes tab did not appear")
-            time.sleep(0.1)
-            titles, rows = table_rows(s.fresh_screen())
-            if any(t != len(keys) for t in titles) or not titles:
-                fails.append((f"C18/table/title/{tag}", f"tab/block titles show Airplanes{titles}, the tracker holds {len(keys)}"))
-            if [r[0].strip() for r in rows] != keys:
-                fails.append((f"C18/table/rows/{tag}", f"rows {[r[0].strip() for r in rows]}, tracked addresses {keys}"))
-                return rows
-            for r, k in zip(rows, keys):
-                rec = recs[k]
-                d = rec["details"]
-                want = {
-                    "callsign": (rec["callsign"] or "")[:9],
-                    "lat": f"{d['pos'][0]:.3f}"[:7] if d else "",
-                    "lon": f"{d['pos'][1]:.3f}"[:7] if d else "",
-                    "altitude": str(d["alt"])[:8] if d else "",
-                    "distance": f"{d['dist']:.3f}"[:8] if d else "",
-                    "msgs": str(rec["num_messages"]),
-                }
-                got = {"callsign": r[1].rstrip(), "lat": r[2].strip(), "lon": r[3].strip(), "altitude": r[5].strip(), "distance": r[8].strip(), "msgs": r[9].strip()}
-                for f in want:
-                    if want[f] != got[f]:
-                        fails.append((f"C18/table/{f}/{tag}", f"row {k}: {f} shows {got[f]!r}, the tracker has {want[f]!r}"))
+
+            def look():
+                """one look at the screen: (problems, rows)"""
+                out = []
+                tr = table_rows(s.fresh_screen())
+                if tr is None:
+                    return [(f"C18/table/title/{tag}", "the Airplanes tab is not shown")], None
+                titles, rows = tr
+                if any(t != len(keys) for t in titles) or not titles:
+                    out.append((f"C18/table/title/{tag}", f"tab/block titles show Airplanes{titles}, the tracker holds {len(keys)}"))
+                if [r[0].strip() for r in rows] != keys:
+                    out.append((f"C18/table/rows/{tag}", f"rows {[r[0].strip() for r in rows]}, tracked addresses {keys}"))
+                    return out, rows
+                for r, k in zip(rows, keys):
+                    rec = recs[k]
+                    d = rec["details"]
+                    want = {
+                        "callsign": (rec["callsign"] or "")[:9],
+                        "lat": f"{d['pos'][0]:.3f}"[:7] if d else "",
+                        "lon": f"{d['pos'][1]:.3f}"[:7] if d else "",
+                        "altitude": str(d["alt"])[:8] if d else "",
+                        "distance": f"{d['dist']:.3f}"[:8] if d else "",
+                        "msgs": str(rec["num_messages"]),
+                    }
+                    got = {"callsign": r[1].rstrip(), "lat": r[2].strip(), "lon": r[3].strip(), "altitude": r[5].strip(), "distance": r[8].strip(), "msgs": r[9].strip()}
+                    for f in want:
+                        if want[f] != got[f]:
+                            out.append((f"C18/table/{f}/{tag}", f"row {k}: {f} shows {got[f]!r}, the tracker has {want[f]!r}"))
+                return out, rows
+
+            # the screen must converge to the tracker's data: a difference counts only if it is
+            # still there on later looks (a redraw may be under way at the first one)
+            probs, rows = [], None
+            for attempt in range(4):
+                s.p.pump(0.1 if attempt == 0 else 0.4)
+                probs, rows = look()
+                if not probs:
+                    break
+            fails.extend(probs)
             return rows
 
         rows_before = check_table("before")
@@ -296,7 +359,12 @@ def run_case(case):
             ok = s.wait_for(lambda: "total" in stats_values(s.fresh_screen()), 4.0)
             if not ok:
                 raise Inconclusive("Stats tab did not appear")
-            sv = stats_values(s.fresh_screen())
+            sv = {}
+            for attempt in range(4):
+                s.p.pump(0.05 if attempt == 0 else 0.4)
+                sv = stats_values(s.fresh_screen())
+                if sv.get("total") == str(exp["total_added"]) and (not keys or sv.get("most") == str(exp["most"])):
+                    break
             if sv.get("total") != str(exp["total_added"]):
                 fails.append((f"C18/stats/total/{tag}", f"Total Airplanes shows {sv.get('total')}, aircraft were newly added {exp['total_added']} times"))
             if keys and sv.get("most") != str(exp["most"]):
